@@ -56,6 +56,9 @@ PAIRS = (
     ("HKY85", "HKY85", "scope-edges"),
     ("GTR", "GTR", "scope-edges"),
     ("TN93", "TN93", "scope-indep"),
+    ("HKY85", "HKY85", "scope2-indep"),  # the null itself has a two-scope parameter
+    ("GTR", "GTR", "scope2-indep"),
+    ("HKY85", "HKY85", "scope2-edges"),
 )
 
 
@@ -145,6 +148,24 @@ def build(plan, which, aln, tree):
     lf = sm.make_likelihood_function(tree, **kw)
     lf.set_alignment(aln)
     edges = [e.name for e in tree.get_edge_vector(include_root=False)]
+    if plan["kind"].startswith("scope2"):
+        pars = [p for p in lf.get_param_names() if p not in ("mprobs", "length")]
+        par = pars[plan["start"][0] > 0.5 and len(pars) > 1]
+        sel = sorted({edges[e % len(edges)] for e in plan["scope_edges"]} | {edges[0]})
+        if len(sel) >= len(edges):
+            sel = sel[:-1]
+        if which == "null":
+            # one value for the selected edges, another for the rest
+            lf.set_param_rule(par, edges=sel, is_independent=False)
+        elif plan["kind"] == "scope2-indep":
+            lf.set_param_rule(par, is_independent=True)
+        else:
+            # refine both null scopes: every selected edge on its own, and the rest split in two
+            lf.set_param_rule(par, edges=sel, is_independent=True)
+            rest = [e for e in edges if e not in sel]
+            if len(rest) > 1:
+                lf.set_param_rule(par, edges=rest[: len(rest) // 2], is_independent=False)
+        return lf
     if which == "alt" and plan["kind"].startswith("scope"):
         pars = [p for p in lf.get_param_names() if p not in ("mprobs", "length")]
         par = pars[plan["start"][0] > 0.5 and len(pars) > 1]
@@ -157,13 +178,21 @@ def build(plan, which, aln, tree):
 
 
 def set_start(plan, lf):
-    pars = [p for p in lf.get_param_names() if p not in ("mprobs", "length", "bprobs", "rate")]
-    for k, p in enumerate(pars):
-        v = 0.2 + plan["start"][k % 8] * 4.0
-        kw = {}
-        if plan["bounds"]:
-            kw = {"lower": 0.05, "upper": 6.0}
-        lf.set_param_rule(p, init=round(v, 4), **kw)
+    kw = {"lower": 0.05, "upper": 6.0} if plan["bounds"] else {}
+    k = 0
+    for rule in lf.get_param_rules():
+        p = rule["par_name"]
+        if p in ("mprobs", "length", "bprobs", "rate") or rule.get("is_constant"):
+            continue
+        v = round(0.2 + plan["start"][k % 8] * 4.0, 4)
+        k += 1
+        if "edges" in rule:
+            # a scoped parameter keeps its scopes (a rule without edges would make it global again)
+            lf.set_param_rule(p, edges=rule["edges"], is_independent=False, init=v, **kw)
+        elif "edge" in rule:
+            lf.set_param_rule(p, edge=rule["edge"], init=v, **kw)
+        else:
+            lf.set_param_rule(p, init=v, **kw)
 
 
 @contextlib.contextmanager
@@ -461,8 +490,8 @@ CROSS_HASHSEED = 64
 
 EVIDENCE = {
     "rule": (
-        "scenario = nested pair (17 pairs: by rate matrix F81/HKY85/TN93/GTR/GN, JC69/K80; by motif-probability "
-        "freedom K80->HKY85, JC69->F81; by scope: global vs per-edge / edge-set parameter; MG94HKY->MG94GTR in thorough) "
+        "scenario = nested pair (20 pairs: by rate matrix F81/HKY85/TN93/GTR/GN, JC69/K80; by motif-probability "
+        "freedom K80->HKY85, JC69->F81; by scope: global vs per-edge / edge-set parameter, and a null that already has a two-scope parameter refined further; MG94HKY->MG94GTR in thorough) "
         "x tree (3-5 taxa) x simulated alignment (length, divergence, base composition) x start values x optimiser "
         "settings (local / global / both, tolerance, max_restarts, seed, bounds) x cut-offs n1, n2 from 1..400 x "
         "a plan-chosen pseudo-random region of parameter space (0/3/10/30% of points) in which a calculator update is "
@@ -480,6 +509,7 @@ EVIDENCE = {
         "J1 has no fault or schedule in it; it is checked on the states the simulated cut-off fits reach",
     ],
     "expected_probes": ["cut-off-sweep", "hypothesis-app", "nested-init-exact:matrix", "nested-init-exact:scope-indep",
-                        "nested-init-exact:scope-edges", "nested-init-exact:mprobs"],
+                        "nested-init-exact:scope-edges", "nested-init-exact:mprobs", "nested-init-exact:scope2-indep",
+                        "nested-init-exact:scope2-edges"],
     "explanation": "C16 cuts optimiser runs at swept evaluation counts with injected evaluation failures and checks the nested-initialisation and monotonicity invariants.",
 }
